@@ -99,6 +99,7 @@ type MyHost struct {
 	Stmts   []string // statement log "by:stmt(arg)=res"
 	Events  []string // SLAVESIDE_DISABLED events "schema.name"
 	ReplMonTS float64 // unix ts in repl_mon table; 0 = table missing
+	IOFailCount int // the next n starts of the IO thread fail with a transient error (1045)
 	KillIneffective bool // KILL does not release sessions waiting for a semi-sync ack (stuck commits)
 }
 
@@ -471,6 +472,12 @@ func (w *MyWorld) binlogOf(h *MyHost) TxnSet {
 // check GTID auto-position consistency (E4) and connectivity.
 func (w *MyWorld) startIOLocked(r *MyHost) {
 	r.SsSAct = r.SsS
+	if r.IOFailCount > 0 {
+		r.IOFailCount--
+		r.IO = "No"
+		r.IOErrno = 1045
+		return
+	}
 	src := w.Hosts[r.Src]
 	if src == nil || !w.reachableLocked(r, src) {
 		r.IO = "Connecting"
